@@ -375,6 +375,11 @@ def finish(mod, tier, seed, st, t0):
             oks.append(ok)
         if oks[0] is False and oks[1] is False:
             confirmed.append(v)
+        elif isinstance(oks[0], str) and oks[0].startswith("error:") and oks[0] == oks[1]:
+            # the case the worker flagged makes the replay itself fail, the same way twice (e.g. the changed
+            # library raises where the replay does not expect it): reproduced, deterministically
+            v = dict(v, observed=_short("%s | replay raised: %s" % (v.get("observed"), oks[0][-200:])))
+            confirmed.append(v)
         elif oks[0] is None and oks[1] is None:
             # replay not supported for this case kind: trust the worker's own
             # double execution (workers re-run before reporting)
